@@ -52,7 +52,7 @@ class C03(Property):
         return 24000 if tier == 'quick' else 600000
 
     def explicit_cases(self, ctx):
-        sizes = (60, 120) if ctx.tier == 'quick' else (60, 500, 4000)
+        sizes = (60, 120) if ctx.tier == 'quick' else (60, 500, 4000, 16000)
         for name in sorted(invalid.FAMILIES):
             for n in sizes:
                 if name in invalid.NESTING_FAMILIES:
